@@ -11,6 +11,7 @@ use std::{
 
 use serde_json::{json, Value};
 
+mod c17cmd;
 mod evalcmd;
 mod parsecmd;
 mod manifestcmd;
@@ -86,6 +87,12 @@ fn main() {
 		"imports" => run_lines(imports::handle),
 		"intern" => run_lines(interncmd::handle),
 		"gc" => run_lines(gccmd::handle),
+		"lex" => run_lines(c17cmd::lex),
+		"rowan" => run_lines(c17cmd::rowan),
+		"spans" => run_lines(c17cmd::spans),
+		"loc" => run_lines(c17cmd::loc),
+		"textall" => run_lines(c17cmd::textall),
+		"errjs" => run_lines(c17cmd::errjs),
 		"version" => println!("jrharness 1"),
 		_ => {
 			eprintln!("usage: jrharness <eval|...>");
